@@ -284,6 +284,9 @@ func randUser(rng *rand.Rand, canary string, hostileStrings bool) *sim.User {
 		u.Username += legalXMLString(rng, 3)
 	}
 	nc := rng.Intn(5)
+	if rng.Intn(15) == 0 {
+		nc = 20 + rng.Intn(40) // now and then a user with very many attributes
+	}
 	for i := 0; i < nc; i++ {
 		c := sim.Custom{Name: fmt.Sprintf("%scustom%d", canary, i), Friendly: "", Format: "urn:oasis:names:tc:SAML:2.0:attrname-format:basic"}
 		if rng.Intn(2) == 0 {
@@ -296,6 +299,9 @@ func randUser(rng *rand.Rand, canary string, hostileStrings bool) *sim.User {
 			c.Name += legalXMLString(rng, 2)
 		}
 		nv := rng.Intn(4)
+		if rng.Intn(25) == 0 {
+			nv = 10 + rng.Intn(30)
+		}
 		for j := 0; j < nv; j++ {
 			v := fmt.Sprintf("%scv%d_%d", canary, i, j)
 			if hostileStrings {
